@@ -143,4 +143,113 @@ theorem block_in_one_chunk (f k p : Nat) (hf : f = 1 ∨ f = 2) (hk : 0 < k) :
       omega
     rw [e1, e2]
 
+/-- what a successful plan of the FIRST new chunk says about the four sizes -/
+theorem plan_zero_facts (a : Axis) (parts : List Part) (h0 : plan a 0 = .ok parts) :
+    a.ns = ceilDiv a.os (factor a) ∧ half a ≠ 0 ∧ 0 < a.os ∧
+    (min a.oc a.os + factor a - 1) / factor a = min (half a) (min a.nc a.ns) ∧
+    (half a < min a.nc a.ns →
+      a.oc < a.os ∧ (min a.oc (a.os - a.oc) + factor a - 1) / factor a = min a.nc a.ns - half a) ∧
+    parts = (if min a.nc a.ns ≤ half a then [⟨0, min a.nc a.ns, 0⟩]
+             else [⟨0, half a, 0⟩, ⟨half a, min a.nc a.ns, 1⟩]) := by
+  unfold plan at h0
+  simp only [Nat.zero_mul, Nat.zero_add, Nat.mul_one, Nat.mul_zero, Nat.sub_zero, newExtent, dsLen] at h0
+  by_cases hf : a.ns ≠ ceilDiv a.os (factor a)
+  · rw [if_pos hf] at h0; cases h0
+  rw [if_neg hf] at h0
+  by_cases hh : half a = 0
+  · rw [if_pos hh] at h0; cases h0
+  rw [if_neg hh] at h0
+  by_cases hpos : 0 < a.os
+  · rw [if_pos hpos] at h0
+    simp only [] at h0
+    by_cases hs : (min a.oc a.os + factor a - 1) / factor a ≠ min (half a) (min a.nc a.ns)
+    · rw [if_pos hs] at h0; cases h0
+    rw [if_neg hs] at h0
+    by_cases hle : min a.nc a.ns ≤ half a
+    · rw [if_pos hle] at h0
+      refine ⟨by simpa using hf, hh, hpos, by simpa using hs, fun hgt => by omega, ?_⟩
+      rw [if_pos hle]
+      exact (Except.ok.inj h0).symm
+    · rw [if_neg hle] at h0
+      by_cases hpos2 : a.oc < a.os
+      · rw [if_pos hpos2] at h0
+        simp only [] at h0
+        by_cases hs2 : (min a.oc (a.os - a.oc) + factor a - 1) / factor a ≠ min a.nc a.ns - half a
+        · rw [if_pos hs2] at h0; cases h0
+        rw [if_neg hs2] at h0
+        refine ⟨by simpa using hf, hh, hpos, by simpa using hs, fun _ => ⟨hpos2, by simpa using hs2⟩, ?_⟩
+        rw [if_neg hle]
+        exact (Except.ok.inj h0).symm
+      · rw [if_neg hpos2] at h0; cases h0
+  · rw [if_neg hpos] at h0; cases h0
+
+/-- several new chunks along the axis and the first one succeeds ⇒ the chunk sizes are compatible -/
+theorem plan_zero_ok_compat (a : Axis) (parts : List Part) (h0 : plan a 0 = .ok parts)
+    (hN : a.nc < a.ns) : compatible a := by
+  obtain ⟨hns, hh, hos, hA, hB, _⟩ := plan_zero_facts a parts h0
+  have hf := factor_cases a
+  have hnc : 0 < a.nc := by
+    rcases Nat.eq_zero_or_pos a.nc with h | h
+    · exfalso
+      rw [h] at hA hB
+      unfold half at hA hh
+      rcases hf with hf | hf <;> rw [hf] at hA hh <;> omega
+    · exact h
+  unfold compatible
+  unfold half at hA hB hh ⊢
+  unfold ceilDiv at hns ⊢
+  rcases hf with hf | hf
+  · rw [hf] at hA hB hh hns ⊢
+    refine ⟨hos, by omega, hnc, hns, Nat.one_dvd _, ?_⟩
+    by_cases hgt : a.oc / 1 < min a.nc a.ns
+    · obtain ⟨h1, h2⟩ := hB hgt
+      omega
+    · omega
+  · rw [hf] at hA hB hh hns ⊢
+    by_cases hgt : a.oc / 2 < min a.nc a.ns
+    · obtain ⟨h1, h2⟩ := hB hgt
+      refine ⟨hos, by omega, hnc, hns, ⟨a.oc / 2, by omega⟩, by omega⟩
+    · refine ⟨hos, by omega, hnc, hns, ⟨a.oc / 2, by omega⟩, by omega⟩
+
+/-- a single new chunk along the axis that succeeds is correct, whatever the chunk sizes -/
+theorem single_chunk_correct (a : Axis) (parts : List Part) (h0 : plan a 0 = .ok parts)
+    (hN : a.ns ≤ a.nc) (p : Nat) (hp : p < a.ns) : sourceStart a p = .ok (specStart a p) := by
+  obtain ⟨hns, hh, hos, hA, hB, hparts⟩ := plan_zero_facts a parts h0
+  have hf := factor_cases a
+  have hpn : p / a.nc = 0 := Nat.div_eq_of_lt (by omega)
+  have hpm : p % a.nc = p := Nat.mod_eq_of_lt (by omega)
+  have hmin : min a.nc a.ns = a.ns := by omega
+  unfold sourceStart specStart
+  simp only [hpn, hpm, h0, hparts, hmin]
+  by_cases hle : a.ns ≤ half a
+  · simp only [hle, if_true, List.find?_cons]
+    have : decide (0 ≤ p ∧ p < a.ns) = true := by simp; exact hp
+    simp only [this, Nat.mul_zero, Nat.zero_add, Nat.sub_zero]
+  · simp only [hle, if_false, List.find?_cons]
+    by_cases ht : p < half a
+    · have : decide (0 ≤ p ∧ p < half a) = true := by simp; exact ht
+      simp only [this, Nat.mul_zero, Nat.zero_add, Nat.sub_zero]
+    · have h1 : decide (0 ≤ p ∧ p < half a) = false := by simp; omega
+      have h2 : decide (half a ≤ p ∧ p < a.ns) = true := by simp; omega
+      simp only [h1, h2, Nat.mul_one]
+      congr 1
+      rw [hmin] at hA hB
+      obtain ⟨_, _⟩ := hB (by omega)
+      unfold half at *
+      unfold ceilDiv at hns
+      generalize factor a = f at *
+      rcases hf with rfl | rfl <;> omega
+
+/-- NO SILENT ERROR: for ALL sizes and chunk sizes (compatible or not), if the copy schedule of
+    every new chunk along the axis succeeds, every new voxel is computed from exactly the old
+    voxels the global downscaling uses. -/
+theorem completed_is_correct (a : Axis)
+    (hall : ∀ n, a.nc * n < a.ns → ∃ parts, plan a n = .ok parts) (p : Nat) (hp : p < a.ns) :
+    sourceStart a p = .ok (specStart a p) := by
+  obtain ⟨parts, h0⟩ := hall 0 (by omega)
+  by_cases hN : a.nc < a.ns
+  · exact axis_correct a (plan_zero_ok_compat a parts h0 hN) p hp
+  · exact single_chunk_correct a parts h0 (by omega) p hp
+
+
 end NgVerif.Pyramid
